@@ -317,7 +317,33 @@ def c10_queries(tier):
             email_query('C10', 3, 16 if tier == 'quick' else 40, covers=['end', 'idn-error', 'accepted-hostname', 'tld-class'])]
 
 
+def c20_queries(tier):
+    lines, ll = (3, 3) if tier == 'quick' else (4, 5)
+    qs = [Query('C20-cli-main-%dx%d' % (lines, ll), 'd_cli.c', repo=['bin/utf8_decode.c'], defs=D(VF_D=1, VF_LINES=lines, VF_LL=ll),
+                unwind=max(14, ll + 5), leak=True,
+                covers=['end', 'all-lines-validated', 'comment-skipped', 'empty-after-trim', 'leading-space-trimmed'],
+                bounds={'lines': lines, 'bytes_per_line': ll, 'terminators': 'LF, CRLF, none on the last line', 'alphabet': '0x01-0xFF except LF'},
+                functions=['main', 'parse_file'], note='fopen/getline/fclose/fprintf/setlocale and the libeav API are recording stubs; sanitize_utf8 intercepted',
+                timeout=3000)]
+    for ts, n in ((6, 8),) if tier == 'quick' else ((6, 8), (8, 10), (2048, 5)):
+        qs.append(Query('C20-sanitize-T%d-N%d' % (ts, n), 'd_cli.c', repo=['bin/utf8_decode.c'],
+                        defs=D(VF_D=2, VF_N=n, LIBEAV_VERIF_TEXT_SIZE=ts), unwind=max(14, n + 4),
+                        covers=['end', 'ill-formed-input'] + (['longer-than-buffer', 'buffer-full', 'echo-multibyte'] if ts < 100 else ['echo-multibyte']),
+                        bounds={'text_len': n, 'TEXT_SIZE': ts, 'alphabet': '0x01-0xFF'},
+                        functions=['sanitize_utf8', 'utf8_decode_init', 'utf8_decode_next', 'utf8_decode_at_byte'],
+                        note='static buffer shrunk by the LIBEAV_VERIF hook so that both sides of the limit are reached' if ts < 100 else 'real TEXT_SIZE',
+                        timeout=3000))
+    return qs
+
+
 PROPS = {
+    'C20': {
+        'queries': c20_queries,
+        'level': 'model_checking',
+        'outside': ['lines containing NUL bytes', 'real stdio; lines longer than the bound (long lines are exercised only through the shrunk buffer)'],
+        'assumptions': ['getline contract: returns the record with its terminator in a heap buffer, -1 at EOF',
+                        'sprintf modelled for the single format "0x%02x"'],
+    },
     'C10': {
         'queries': c10_queries, 'pre': pre.c10_pre,
         'level': 'model_checking',
